@@ -286,19 +286,24 @@ func propC20(c *Ctx) {
 			okPayerErr := p.HasFact(len(p.Events), func(a *Term, pol bool) bool {
 				return pol && eqAtom(a, "(address.Codec).BytesToString(h.ac, (sdk.FeeTx).FeePayer("+feeTx+")).1", "nil")
 			})
-			match := false
-			for i := 0; i < 3 && !match; i++ {
-				el := fmt.Sprintf("%s.0[%d]", wl, i)
-				byPayer := p.HasFact(len(p.Events), func(a *Term, pol bool) bool { return pol && eqAtom(a, el, payer) })
-				byGranter := p.HasFact(len(p.Events), func(a *Term, pol bool) bool { return pol && eqAtom(a, el, granter) }) &&
-					p.HasFact(len(p.Events), func(a *Term, pol bool) bool {
-						return !pol && eqAtom(a, "(sdk.FeeTx).FeeGranter("+feeTx+")", "nil")
-					}) &&
-					p.HasFact(len(p.Events), func(a *Term, pol bool) bool {
-						return pol && eqAtom(a, "(address.Codec).BytesToString(h.ac, (sdk.FeeTx).FeeGranter("+feeTx+")).1", "nil")
-					})
-				match = byPayer || byGranter
+			// an element of the loaded whitelist (any index) compared equal with x
+			elemEq := func(x string) bool {
+				return p.HasFact(len(p.Events), func(a *Term, pol bool) bool {
+					el := eqOther(a, x)
+					if !pol || el == nil {
+						return false
+					}
+					el = strip(el)
+					return el.Op == "index" && strip(el.Args[0]).Key() == wl+".0"
+				})
 			}
+			match := elemEq(payer) || (elemEq(granter) &&
+				p.HasFact(len(p.Events), func(a *Term, pol bool) bool {
+					return !pol && eqAtom(a, "(sdk.FeeTx).FeeGranter("+feeTx+")", "nil")
+				}) &&
+				p.HasFact(len(p.Events), func(a *Term, pol bool) bool {
+					return pol && eqAtom(a, "(address.Codec).BytesToString(h.ac, (sdk.FeeTx).FeeGranter("+feeTx+")).1", "nil")
+				}))
 			// granter stays "" when FeeGranter() is nil: a match then needs an empty whitelist
 			// element, which validated params exclude (obligation below) - such a path is infeasible.
 			emptyEl := p.HasFact(len(p.Events), func(a *Term, pol bool) bool {
